@@ -10,15 +10,34 @@ BASELINE = ("cd /repo && env -u KLEPTO_VERIF /venv/bin/python -m pytest -ra -q -
 CACHE_NOTE = ("trusted: TLC, the recorder (harness/cache_driver.py), the mapping of real keys to key ids via "
               "f.key(); exhaustive only within the constants listed in the evidence; HDF5/sqlalchemy backends absent")
 
+def _cache(text, ref):
+    return ('cache', 'model_checking', text + ' TLC model-checks the implementation-shaped layer I (CacheImpl) '
+            'against these clauses within the stated constants; TLC-generated behaviours (all short sequences, '
+            'simulation walks) and scenario drivers are replayed on the real decorators over modules/backends/keymaps '
+            'and every recorded step is judged by TLC (CacheTrace) against the same clauses.', ref, CACHE_NOTE,
+            'TLA+ layer P/I refinement by TLC + trace validation of replayed TLC behaviours')
+
+
 CLAIMED = {
     # pid: (engine, category, text, design_ref, level_note, technique)
-    'C06': ('cache', 'model_checking',
-            'TLC checks exhaustively (bounded) that the implementation-shaped model of the deque/refcount/compaction, '
-            'Counter+nsmallest, deque-pop and random-choice mechanisms refines the policy clauses of layer P; '
-            'TLC-generated behaviours (all short sequences + simulation walks through compaction) are replayed on '
-            'the real decorators and every recorded step is judged by TLC against the same clauses',
-            '4 (C06)', CACHE_NOTE,
+    'C01': _cache('Clauses C01.*: every completed call returns F(args); memory and archives only ever hold F values.', '4 (C01)'),
+    'C02': _cache('Clauses C02.*: the stub is evaluated exactly when the key is neither resident nor in the bound archive; '
+                  'a miss stores; ghost set of keys that must stay retrievable while an archive is attached; second instance on the same archive.', '4 (C02)'),
+    'C05': _cache('Clauses C05.*: size after a call <= max(maxsize, size before); maxsize 0/None semantics; purge empties; every spelling of maxsize.', '4 (C05)'),
+    'C06': _cache('Clauses C06.*: victims are exactly those of LRU/MRU/LFU/RR computed from ghost recency/frequency; hits keep everything.', '4 (C06)'),
+    'C07': _cache('Clauses C07.*: whatever leaves memory is in the archive with its value; archive entries never change; retrievability ghost.', '4 (C07)'),
+    'C08': ('store', 'model_checking',
+            'StoreP gives the exact post-state of every cache/archive operation (dict ops, direct archive writes, load/dump with and '
+            'without keys, sync, archived on/off, open, drop); TLC checks that StoreImpl (the __archive__/__swap__ mechanism) refines it '
+            'exhaustively within bounds; generated behaviours are replayed on real klepto.archives.cache objects over 11 backends and '
+            'every step is judged by TLC (StoreTrace).', '4 (C08)',
+            'trusted: TLC, the recorder (harness/store_checks.py); keys k1..k3 / small int values; HDF5/sqlalchemy backends absent',
             'TLA+ layer P/I refinement by TLC + trace validation of replayed TLC behaviours'),
+    'C15': _cache('Clauses C15.*: exactly one of hit/load/miss is incremented according to the pre-state class; size/maxsize; clear semantics.', '4 (C15)'),
+    'C16': _cache('Clauses C16.*: a raising call leaves every observable unchanged and re-raises the same object after one evaluation; '
+                  'safe decorators fall back to plain evaluation for unkeyable arguments.', '4 (C16)'),
+    'C18': _cache('Clauses C18.*: key() is the storage key, lookup() returns the resident value or KeyError, both are pure; with ignore/tol variants.', '4 (C18)'),
+    'C20': _cache('Clauses C20.*: a dill round trip yields equal contents/statistics/binding; lock-step continuation of original and copy; independence.', '4 (C20)'),
 }
 
 PENDING = {}
